@@ -73,6 +73,7 @@ type parent struct {
 	seq         int
 
 	grouped      map[string]map[string]int64 // counter prefix -> name -> count
+	observations map[string]evid.Violation   // undeliverable class -> example
 	viol         map[string][]evid.Violation // by signature
 	violCount    map[string]int
 	sigConfirmed map[string]bool
@@ -108,6 +109,7 @@ func main() {
 		sigConfirmed: map[string]bool{}, sigWaiting: map[string][]*pendingVerdict{}, aloneInfo: map[string]string{}}
 	p.cond = sync.NewCond(&p.mu)
 	p.grouped = map[string]map[string]int64{"class_": {}, "op_": {}, "sigcount:": {}}
+	p.observations = map[string]evid.Violation{}
 	base := os.Getenv("VERIF_BUILD_DIR")
 	if base != "" {
 		p.workdir = filepath.Join(base, fmt.Sprintf("fuzzmon.work.%d", os.Getpid()))
@@ -387,6 +389,10 @@ func (p *parent) handle(t *task, r *childResult) {
 	if counting && r.partial != nil {
 		// violations are aggregated here (smallest witnesses per signature are kept), everything else is merged
 		for _, v := range r.partial.Violations {
+			if strings.HasPrefix(v.Sig, observationPrefix) {
+				p.addObservation(strings.TrimPrefix(v.Sig, observationPrefix), v)
+				continue
+			}
 			p.addViolation(v, false) // occurrences are counted by the child ("sigcount:" counters)
 		}
 		r.partial.Violations = nil
@@ -608,6 +614,10 @@ func (p *parent) handleCrash(t *task, r *childResult) {
 	idx := r.last.Idx
 	if t.Purpose == "batch" || t.Purpose == "replay" {
 		p.continueBatch(t, idx)
+		// the input the child died in was evaluated, the child could not count it
+		p.run.Eval(1)
+		p.run.Count(fmt.Sprintf("inputs_surface%d", t.Surface), 1)
+		p.run.Nontrivial(fmt.Sprintf("surface%d|%s|%s|crash", t.Surface, r.last.Class, r.last.Op))
 	}
 	cr := parseCrash(r.stderr)
 	if t.pending != nil {
@@ -623,6 +633,13 @@ func (p *parent) handleCrash(t *task, r *childResult) {
 	if cr.topGalaxy == "" || isHarnessFrame(cr.origin) {
 		p.run.Inconclusive(fmt.Sprintf("child for surface%d crashed at input %d outside galaxy code (%s; origin %s): harness or fake problem",
 			t.Surface, idx, cr.headline, cr.origin))
+		return
+	}
+	if undeliverableClass[r.last.Class] {
+		p.run.Count("obs_panic_undeliverable_"+r.last.Class, 1)
+		p.addObservation(r.last.Class, evid.Violation{Case: p.caseID(t.Surface, idx), Msg: "child process died: " + cr.headline + " in " + cr.topGalaxy,
+			Witness: map[string]interface{}{"input": r.last.Input, "surface": t.Surface, "idx": idx, "op": r.last.Op, "class": r.last.Class,
+				"crash": cr.headline, "top_galaxy_frame": cr.topGalaxy, "stack": truncate(cr.stack, 3000)}})
 		return
 	}
 	var sig string
@@ -667,6 +684,16 @@ func witnessSize(v evid.Violation) int {
 	return len(d)
 }
 
+// addObservation keeps the first (smallest) example per undeliverable class; it never reaches run.Violate.
+func (p *parent) addObservation(class string, v evid.Violation) {
+	p.mu.Lock()
+	defer p.mu.Unlock()
+	if old, ok := p.observations[class]; !ok || witnessSize(v) < witnessSize(old) {
+		v.Sig = ""
+		p.observations[class] = v
+	}
+}
+
 // addViolation keeps the three smallest witnesses per signature.
 func (p *parent) addViolation(v evid.Violation, count bool) {
 	p.mu.Lock()
@@ -705,6 +732,14 @@ func (p *parent) finish() int {
 	}
 	if len(counts) > 0 {
 		p.run.Set("violation_occurrences", counts)
+	}
+	if len(p.observations) > 0 {
+		obs := map[string]interface{}{}
+		for c, v := range p.observations {
+			obs["panic_undeliverable_"+c] = map[string]interface{}{"case": v.Case, "observed": v.Msg, "example": v.Witness,
+				"why_not_a_violation": "outside C18's statement and not deliverable by a defaulting/validating API server"}
+		}
+		p.run.Set("observations", obs)
 	}
 	p.run.Set("inputs_per_generator_class", p.grouped["class_"])
 	p.run.Set("inputs_per_operation", p.grouped["op_"])
